@@ -144,7 +144,7 @@ Section Model.
 
   (* the `for i in 0..len` loop of TDigest::quantile; `left` is min for i = 0 and the previous
      centroid's mean afterwards *)
-  Fixpoint q_loop (dmax left : T) (cs : list (T * T)) (cum target : T) : T :=
+  Fixpoint q_loop (dmin dmax left : T) (cs : list (T * T)) (cum target : T) : T :=
     match cs with
     | [] => dmax
     | (m, w) :: rest =>
@@ -154,8 +154,9 @@ Section Model.
           else
             let fraction := (target -! cum) /! w in
             let right := match rest with [] => dmax | (m', _) :: _ => m' end in
-            left +! fraction *! (right -! left)
-        else q_loop dmax m rest next target
+            (* .clamp(self.min, self.max): rounding must not leave the observed range *)
+            clamp (left +! fraction *! (right -! left)) dmin dmax
+        else q_loop dmin dmax m rest next target
     end.
 
   (* TDigest::quantile *)
@@ -167,7 +168,7 @@ Section Model.
         if a_leb A (a_abs A (q -! a_zero A)) (a_eps A) || (length (d_cents d) =? 1)%nat
         then d_min d
         else if a_leb A (a_abs A (q -! a_one A)) (a_eps A) then d_max d
-        else q_loop (d_max d) (d_min d) (d_cents d) (a_zero A) (q *! d_total d)
+        else q_loop (d_min d) (d_max d) (d_min d) (d_cents d) (a_zero A) (q *! d_total d)
     end.
 
   (* TDigest::quantiles *)
